@@ -75,6 +75,7 @@ add("C15",
     "Trusts the canonical genome dump (floats as bit patterns) and the experiment snapshot in sim/sim/prop_c15.go; weights, parameters and fitness are finite; generation records carry a champion; Trial.Duration and the champion's species are not part of the saved form; nothing is demanded of reads of torn data whose write reported the error.",
     TECH + "; oracle = bit-exact canonical comparison after each round trip; write/read error acknowledgement rule under injected device faults", "DESIGN.md 5.15", category="fault_enumeration")
 
-for p in ["C17"]:
-    if p not in CHECKS:
-        pending(p)
+add("C17",
+    "Seeded search over environments: the same scenario (one tape slice = start genome, options, library seed, deterministic fitness; worlds with the sequential executor and sequential Experiment.Execute runs) is executed as a reference and again immediately, after unrelated work and heap churn, under other GOMAXPROCS / GC settings, inside a fake-clock bubble with jumps of hours to years between epochs, and in a fresh child process; canonical population dumps are compared bit for bit after construction and after every epoch." + SAMPLING,
+    "Trusts the canonical population dump in sim/sim/prop_c17.go; the harness module declares go 1.23 so that rand.Seed seeds the global source under the go1.26 toolchain; a panic of the library is part of the outcome and must recur at the same step.",
+    TECH + "; oracle = bit-exact comparison of canonical population dumps between a reference execution and perturbed re-executions (clock, heap, processors, prior work, fresh process)", "DESIGN.md 5.17")
